@@ -195,7 +195,8 @@ func runFacts(repo string) (map[string]any, error) {
 		infos: map[string]*types.Info{},
 		std:   importer.ForCompiler(fset, "source", nil),
 	}
-	var mapRanges, pkgVars, goStmts, randUses, guardedCalls []map[string]any
+	var mapRanges, pkgVars, goStmts, randUses, guardedCalls, sortedLoops, codegenEntries []map[string]any
+	funcBodies := map[string]string{}
 	// methods whose map ranges are classified "unreachable": every call site is listed
 	watched := map[string]bool{"(*ssa.Program).Peephole": true, "(*ssa.Program).liveness": true,
 		"(ssa.Set).Copy": true, "(ssa.Set).Subtract": true, "(ssa.Set).Array": true,
@@ -254,6 +255,30 @@ func runFacts(repo string) (map[string]any, error) {
 						continue
 					}
 					fn := funcName(d)
+					if rel == "compiler" && fn == "Compiler.resetPackages" || rel == "compiler/ast" && fn == "Package.SortedImports" {
+						funcBodies[fn] = clipS(render(fset, d.Body), 600)
+					}
+					if rel == "compiler" {
+						// entry points that generate code (call ast.NewCodegen): is
+						// `c.resetPackages()` a top-level statement before the first c.parse?
+						hasCodegen, resetAt, parseAt := false, -1, -1
+						for i, st := range d.Body.List {
+							txt := render(fset, st)
+							if strings.Contains(txt, "ast.NewCodegen(") {
+								hasCodegen = true
+							}
+							if es, ok := st.(*ast.ExprStmt); ok && render(fset, es.X) == "c.resetPackages()" && resetAt < 0 {
+								resetAt = i
+							}
+							if strings.Contains(txt, "c.parse(") && parseAt < 0 {
+								parseAt = i
+							}
+						}
+						if hasCodegen {
+							codegenEntries = append(codegenEntries, map[string]any{"func": fn,
+								"reset_before_parse": resetAt >= 0 && parseAt >= 0 && resetAt < parseAt})
+						}
+					}
 					var stack []ast.Node
 					underIfFalse := func() bool {
 						for _, a := range stack {
@@ -287,6 +312,10 @@ func runFacts(repo string) (map[string]any, error) {
 								}
 							}
 						case *ast.RangeStmt:
+							if strings.HasSuffix(render(fset, s.X), ".SortedImports()") {
+								sortedLoops = append(sortedLoops, map[string]any{"file": fname, "func": fn,
+									"expr": render(fset, s.X), "under_if_false": underIfFalse()})
+							}
 							tv, ok := info.Types[s.X]
 							if !ok || tv.Type == nil || tv.Type == types.Typ[types.Invalid] {
 								mapRanges = append(mapRanges, map[string]any{"file": fname, "func": fn,
@@ -347,8 +376,11 @@ func runFacts(repo string) (map[string]any, error) {
 	sortMaps(goStmts, "file", "func", "kind", "text")
 	sortMaps(randUses, "file", "import", "func")
 	sortMaps(guardedCalls, "callee", "file", "func")
+	sortMaps(sortedLoops, "file", "func")
+	sortMaps(codegenEntries, "func")
 	return map[string]any{
 		"map_ranges": mapRanges, "pkg_vars": pkgVars, "go_stmts": goStmts, "rand_uses": randUses, "watched_calls": guardedCalls,
+		"sorted_import_loops": sortedLoops, "codegen_entries": codegenEntries, "func_bodies": funcBodies,
 		"structs": structs, "type_errors": ri.errs, "stubbed_imports": ri.stubbed,
 	}, nil
 }
